@@ -40,6 +40,11 @@ PROGRAMS = [
                     "a = 10; d = 40; return g() * 100 + h(); } f(5);", 13 * 100 + 47),
     ("three-deep", "function a1(x) { var y = x + 1; return function a2(z) { var w = z + y; return function a3(q) { var v = q + w + x; "
                    "return function a4() { return v + y + z; }; }; }; } a1(1)(2)(3)();", (3 + 4 + 1) + 2 + 2),
+    ("surplus-args", "function f(a) { var x, y, z, w; var before = [typeof x, typeof y, typeof z, typeof w].join(); x = a; y = 2; "
+                     "function g() { return x + y; } return before + '|' + g(); } "
+                     "var r = [f(1, 'p', 'q', 'r', 's'), [7].map(function (v) { var m, n, o; var t = [typeof m, typeof n, typeof o].join(); m = v; "
+                     "return t + m; })[0], (function named(k) { var u, v2; return typeof u + typeof v2 + typeof named + k; })(1, 2, 3, 4)].join(';'); r;",
+     "undefined,undefined,undefined,undefined|3;undefined,undefined,undefined7;undefinedundefinedfunction1"),
     ("recursion-with-closure", "function walk(n, visit) { var seen = 0, k; function step(m) { if (m === 0) { return; } seen += visit(m); "
                                "step(m - 1); } step(n); k = seen; return k; } var mult = 3; walk(4, function (v) { return v * mult; });", 30),
 ]
@@ -231,6 +236,62 @@ def make_clock(src, want):
     return clock_case
 
 
+REGEX_PROGRAM = ("function mk(n) { var c = n; return function (s) { c++; return c + ':' + s.replace(/(a+)+b/g, 'X').length + ':' + "
+                 "/^(\\w+\\s?)*$/.test(s); }; } var f = mk(0); f('aaaaaaaaaab aaaab aaaaaaaaaaaa');")
+
+
+def make_earlier_context(first_limited):
+    """The same source on two fresh contexts, the second one created and run an arbitrary time after the first: the wall
+    clock is a stub that stands still during an evaluation and jumps by a symbolic amount between them."""
+    def earlier_case(d1, d2):
+        pre(0 <= d1 and 0 <= d2)
+        import microjs.vm as _vm
+        import microjs.context as _ctx
+        import microjs.values as _values
+        from ..jsrun import new_context
+        from microjs.errors import JSError
+
+        class Clock:
+            t = 0.0
+
+            def monotonic(self):
+                return self.t
+
+            def time(self):
+                return self.t
+        clock = Clock()
+        saved = (_vm.time, _ctx.time, getattr(_values, "time", None))
+        _vm.time = clock
+        _ctx.time = clock
+        if saved[2] is not None:
+            _values.time = clock
+        try:
+            with NoTracing():
+                c0 = new_context(time_limit=1.0) if first_limited else new_context()
+                want = c0.eval(REGEX_PROGRAM)
+            clock.t = clock.t + d1
+            with NoTracing():
+                c1 = new_context(time_limit=1.0)
+            clock.t = clock.t + d2
+            try:
+                got = c1.eval(REGEX_PROGRAM)
+            except JSError as e:
+                return "a fresh context evaluated later raises " + type(e).__name__
+            cover("judged")
+            if got != want:
+                return "a fresh context evaluated later gives a different result"
+            c2 = new_context()
+            if c2.eval(REGEX_PROGRAM) != want:
+                return "an unlimited context evaluated afterwards gives a different result"
+        finally:
+            _vm.time, _ctx.time = saved[0], saved[1]
+            if saved[2] is not None:
+                _values.time = saved[2]
+        return True
+    earlier_case.__annotations__ = {"d1": float, "d2": float, "return": bool}
+    return earlier_case
+
+
 def harnesses():
     hs = []
     for name, src, want in PROGRAMS:
@@ -244,6 +305,12 @@ def harnesses():
                           bounds=["program %s; 8 Lehmer digits" % name]))
     hs.append(Harness(id="C15.batch", fn=make_batch(), group="batch", functions=FNS, per_path=30, budget=600, require=("judged",),
                       bounds=["5 programs evaluated in one process in every order (120), each on a fresh context and on one shared context"]))
+    for lim in (True, False):
+        hs.append(Harness(id="C15.earlier-context.%s" % ("limited" if lim else "unlimited"), fn=make_earlier_context(lim), group="clock",
+                          functions=FNS + ("microjs.values.JSRegExp", "microjs.regex"), per_path=120, budget=600, require=("judged",),
+                          stubs=("clock: stands still during an evaluation, jumps by symbolic amounts between evaluations",),
+                          bounds=["a closure + backtracking-regex program on a fresh time-limited context, created and run arbitrary "
+                                  "(symbolic, >= 0) times after the same source ran on an earlier %s context" % ("time-limited" if lim else "unlimited")]))
     for name, src, want in PROGRAMS[:4]:
         hs.append(Harness(id="C15.clock.%s" % name, fn=make_clock(src, want), group="clock", functions=FNS, per_path=60, budget=300,
                           require=("judged",), stubs=("clock: arbitrary non-decreasing symbolic readings",),
